@@ -27,6 +27,7 @@ type SchemaOpts struct {
 	NoAnyAttr  bool
 	LitOnly    bool // only constraints expressible in both syntaxes (C19)
 	AddrPct    int  // percent chance that an attribute is addressable (default 25)
+	DepBoost   bool // make dependent bodies (label keys, attribute keys, second level) much more likely
 }
 
 func (g G) Type(depth int) cty.Type {
@@ -479,9 +480,16 @@ func (g G) Block(level int, o SchemaOpts) m.BlockM {
 		bl.Max = uint64(g.Int(0, 2))
 	}
 	nl := g.Weighted(40, 35, 20, 5)
+	if o.DepBoost && nl == 0 && g.Chance(70) {
+		nl = 1
+	}
 	for i := 0; i < nl; i++ {
 		l := m.LabelM{Name: Pick(g, []string{"type", "name", "", "lbl"}), Mods: g.modsList(), Desc: g.desc()}
-		if g.Chance(45) {
+		dk := 45
+		if o.DepBoost {
+			dk = 85
+		}
+		if g.Chance(dk) {
 			l.DepKey = true
 			l.Completable = g.Chance(70)
 		} else {
@@ -499,7 +507,11 @@ func (g G) Block(level int, o SchemaOpts) m.BlockM {
 	}
 	// dependent-key attributes in the static body
 	var depAttrNames []string
-	if bl.Body != nil && len(bl.Body.Attrs) > 0 && g.Chance(30) {
+	dak := 30
+	if o.DepBoost {
+		dak = 65
+	}
+	if bl.Body != nil && len(bl.Body.Attrs) > 0 && g.Chance(dak) {
 		for _, a := range sortedAttrs(bl.Body.Attrs) {
 			if len(depAttrNames) < 2 && g.Chance(40) {
 				aa := bl.Body.Attrs[a]
@@ -564,7 +576,11 @@ func (g G) Block(level int, o SchemaOpts) m.BlockM {
 			d.Body = g.Body(level, depOpts(o), true)
 			bl.Deps = append(bl.Deps, d)
 			// second level: a dependent body with its own key attribute
-			if len(d.Attrs) == 0 && level <= 2 && g.Chance(25) {
+			sl := 25
+			if o.DepBoost {
+				sl = 60
+			}
+			if len(d.Attrs) == 0 && level <= 2 && g.Chance(sl) {
 				kn := Pick(g, []string{"backend", "kind"})
 				ka := m.AttrM{Flag: "optional", DepKey: true, Cons: m.ConsM{K: "littype", Ty: m.TyOf(cty.String)}}
 				if g.Chance(25) {
